@@ -91,6 +91,13 @@ def _case(draw, tier):
         v = draw(st.integers(0, nv - 1))
         sc = ["or", "nary", [leaf(draw, ctx, [v] if nv == 1 else draw(st.sampled_from([[0, 1], [v]]))), leaf(draw, ctx, [v])]]
         c["cond"] = ["and", "nary", [c["cond"], ["sub", "entity", [v], sc]]]
+    if chance(draw, 1, 6):
+        # s = x.s is a bare condition of the body AND stands beneath another expression in the head (one shared object)
+        v = draw(st.integers(0, nv - 1))
+        T_ = ["attr", ["var", v], "s"]
+        c["cond"] = ["and", "nary", [["truth", T_], c["cond"]] if draw(st.booleans()) else [c["cond"], ["truth", T_]]]
+        head["args"][-1][1] = ["call", T_, "startswith", [draw(st.sampled_from(["x", "y"]))]]
+        c["share_terms"] = True
     head["positional"] = draw(st.booleans())
     c["head"] = head
     c["infer_style"] = draw(st.sampled_from(["infer_entity", "infer_direct", "an_in_rule_mode"]))
